@@ -47,6 +47,8 @@ def model_st(draw, d, multi=True, allow_ignore=True, options=False):
             spec['positional'] = True        # order-sensitive model (array-based model behind a wrapper without feature names)
         elif k == 1:
             spec['opt'] = [draw(st.integers(1, 3))]   # reads an optional key that only some observations carry
+        elif k == 3:
+            spec['memo'] = True              # memoising model: equal inputs get the same prediction OBJECT back
         elif k == 2:
             spec['array_out'] = True         # float mode: output values are size-one NumPy arrays (numeric, but mutable objects)
         if len(outs) > 1 and draw(st.booleans()):
@@ -224,10 +226,17 @@ class Harness:
             rows.append((x, y))
         return rows
 
+    def names_arg(self):
+        """The feature-name list handed to the explainer.  When the model reads exactly the explained features it is the SAME list object
+        the model uses (a user typically builds one list and passes it everywhere): reordering it in place would change the model."""
+        if not self.cfg.get('extra') and not self.cfg['model'].get('positional'):
+            return self.model.names
+        return list(self.names)
+
     def pfi(self):
         from ixai.explainer import IncrementalPFI
         c = self.cfg
-        return IncrementalPFI(self.model, self.loss, list(self.names), storage=self.storage, imputer=self.imputer,
+        return IncrementalPFI(self.model, self.loss, self.names_arg(), storage=self.storage, imputer=self.imputer,
                               n_inner_samples=c['n_inner'], smoothing_alpha=self.alpha, dynamic_setting=c['dynamic'])
 
     def sage(self):
@@ -235,8 +244,8 @@ class Harness:
         c = self.cfg
         if c.get('library_defaults'):
             # default storage (reservoir of 100) and default imputer (marginal joint) created by the explainer itself
-            return IncrementalSage(self.model, self.loss, list(self.names), n_inner_samples=c['n_inner'], smoothing_alpha=self.alpha,
+            return IncrementalSage(self.model, self.loss, self.names_arg(), n_inner_samples=c['n_inner'], smoothing_alpha=self.alpha,
                                    dynamic_setting=c['dynamic'], loss_bigger_is_better=c['lbib'])
-        return IncrementalSage(self.model, self.loss, list(self.names), storage=self.storage, imputer=self.imputer,
+        return IncrementalSage(self.model, self.loss, self.names_arg(), storage=self.storage, imputer=self.imputer,
                                n_inner_samples=c['n_inner'], smoothing_alpha=self.alpha, dynamic_setting=c['dynamic'],
                                loss_bigger_is_better=c['lbib'])
